@@ -152,6 +152,7 @@ int main(int argc, char** argv) {
         SourceMap* m = nullptr;
         if (what == "kick") {
             KickMap* km = new KickMap(*w.in, *w.out, it, false, in.i("axis") ? KickMap::Axis::y : KickMap::Axis::x, nullptr);
+            if (in.has("pre_off")) { auto pre = in.fv("pre_off"); pre.resize((size_t)c.nb * c.n); km->swapOffset(pre); km->apply(); }      // an earlier kick with other offsets on the same map (history)
             auto off = in.fv("off"); off.resize((size_t)c.nb * c.n); km->swapOffset(off); m = km;
             dumpf(fo, "force", km->getForce(), (size_t)c.nb * c.n);
         } else if (what == "rflin") { auto r = e_new_rf_lin(w.in, w.out, c.angle, (float)in.d("fRF", 0, 5e8), c.it); m = r; dumpf(fo, "force", r->getForce(), (size_t)c.nb * c.n);
